@@ -60,7 +60,7 @@ theorem c17_locked_refuses (d : Dir) (hl : d.holders > 0) :
     ∃ e, (openDb d).2 = .error e ∧ (openDb d).1 = d := by
   unfold openDb
   cases hm : d.marker with
-  | none => simp [Dir.locked, hl]
+  | none => by_cases hk : d.hasKeyspaces <;> simp [Dir.locked, hl, hk]
   | some b =>
     simp only
     cases hv : checkVersion b with
@@ -77,12 +77,14 @@ theorem c17_open_ok_only_when_free (d : Dir) (h : (openDb d).2 = .ok ()) :
   | none =>
     rw [hm] at h
     simp only at h ⊢
-    by_cases hl : d.locked
-    · simp [hl] at h
-    · by_cases hj : d.hasJournal0
-      · simp [hl, hj] at h
-      · simp [Dir.locked] at hl
-        simp [Dir.locked, hl, hj]
+    by_cases hk : d.hasKeyspaces
+    · simp [hk] at h
+    · by_cases hl : d.locked
+      · simp [hk, hl] at h
+      · by_cases hj : d.hasJournal0
+        · simp [hk, hl, hj] at h
+        · simp [Dir.locked] at hl
+          simp [Dir.locked, hk, hl, hj]
   | some b =>
     rw [hm] at h
     simp only at h ⊢
@@ -100,18 +102,18 @@ theorem c17_unlocked_after_last_drop (d : Dir) (m : Bytes) (hm : d.marker = some
     (openDb (stepH d .drop).1).2 = .ok () := by
   simp [stepH, h1, openDb, hm, hv, Dir.locked]
 
-/-- Finding F12 (marker *absent* on a directory whose `0.jnl` was already evicted): the create path
-    is taken, the open succeeds and writes. With `0.jnl` present it is refused, but not without
-    touching the directory. -/
-theorem c17_counterexample_marker_absent :
-    let d : Dir := { marker := none, hasJournal0 := false, mutations := 0, holders := 0 }
-    (openDb d).2 = .ok () ∧ (openDb d).1.mutations > d.mutations := by
-  exact ⟨rfl, by decide⟩
+/-- **A database directory without its version marker is refused untouched** (repaired, finding
+    F12): whatever else is in it — in particular when its first journal `0.jnl` has already been
+    reclaimed, where the open used to take the create path and write a fresh journal and marker
+    over the existing data. -/
+theorem c17_marker_absent_refused (d : Dir) (hm : d.marker = none) (hk : d.hasKeyspaces = true) :
+    openDb d = (d, .error (.invalidVersion none)) := by
+  simp [openDb, hm, hk]
 
 /-! Non-vacuity -/
 example : checkVersion [0x46, 0x4A, 0x4C, 3, 9, 9] = .ok () := rfl
 example : checkVersion [0x46, 0x4A, 0x4C, 2] = .error (.invalidVersion (some .v2)) := rfl
 example : ∃ d : Dir, d.holders > 0 ∧ d.marker = some [0x46, 0x4A, 0x4C, 3] :=
-  ⟨⟨some [0x46, 0x4A, 0x4C, 3], true, 3, 2⟩, by decide, rfl⟩
+  ⟨⟨some [0x46, 0x4A, 0x4C, 3], true, true, 3, 2⟩, by decide, rfl⟩
 
 end Fjall.Version
